@@ -151,6 +151,7 @@ type HistResult struct {
 	C27Both   int
 	C03Checked int
 	C05Checked int
+	C05Cases   [][2][]*big.Int // model 21 cases: (input, observed)
 	Exports   []*types.AppState // only when keepExports
 }
 
@@ -414,6 +415,23 @@ func genHistory(seed uint64, spec *GenesisSpec, g *genOpts) (*History, *HistResu
 				}
 			}
 			opts.PostTx = func(i int, raw []byte, tr TxResult) {
+				if known && i < len(gens) && (tr.Code == 0 || tr.Code == 406) {
+					// model 21 (coq/Model/CandAuth.v): accepted => authorized, code 406 => not authorized
+					kind := int64(4)
+					switch gens[i].Data.(type) {
+					case transaction.EditCandidateData:
+						kind = 1
+					case transaction.EditCandidateCommission:
+						kind = 2
+					case transaction.SetCandidateOnData:
+						kind = 3
+					}
+					obs := int64(1)
+					if tr.Code == 406 {
+						obs = 0
+					}
+					res.C05Cases = append(res.C05Cases, [2][]*big.Int{L(Z(kind), addrZ20(gens[i].Sender.Addr), addrZ20(owner), addrZ20(control)), L(Z(obs))})
+				}
 				if !known || tr.Code != 0 || i >= len(gens) {
 					return
 				}
